@@ -13,7 +13,7 @@ MANIFEST = dict(
          "state must be Terminated. A run without hook progress is only reported when the specification itself has no enabled step in the reached state.",
     note="Trusted: TLC; std Mutex/Condvar/Barrier semantics as modelled (the condvar mechanics of the queue are refined separately in Queue.tla, C06). "
          "Liveness is exhaustive only for the bounded model; real schedules are sampled.",
-    technique="TLA+ spec (Pipeline.tla) + TLC liveness checking under fairness; recorded executions validated by TLC (Trace_Pipeline.tla) with a terminated end state")
+    technique="TLA+ spec (Pipeline.tla) + TLC liveness checking under fairness; recorded executions validated by TLC (Trace_Pipeline.tla; deviations from the design re-judged by the permissive C05 observer Trace_PipelineObs.tla) with a terminated end state")
 
 
 def run(ctx):
@@ -35,6 +35,12 @@ def run(ctx):
     ctx.extra["runs_with_capacity_below_1000_bytes"] = len(small_cap)
     for r in ok[:2]:
         ctx.sample({k: r[k] for k in ("id", "threads", "cap", "perturb", "events", "result")})
+    # Verdict. A run accepted by the strict trace specification is a terminated behaviour of Pipeline.tla: all clauses of C05 hold.
+    # A run that DEVIATES from the design (unmatched event, determinism / priority-range invariant, different bytes) is not thereby a
+    # termination problem - that is C04's / C18's business.  It is judged by the permissive observer Trace_PipelineObs.tla, which
+    # evaluates exactly the clauses of C05; only what the observer rejects is a C05 violation.
+    C05_INVARIANTS = ("NoLostContig", "EachOnce", "BarrierSane", "SameBarrier", "EndState")
+    deviations = []
     for r in results:
         if r["status"] == "ok":
             continue
@@ -46,8 +52,23 @@ def run(ctx):
             r["detail"] = ("all threads blocked for the watchdog period although the specification has an enabled step in the reached state "
                            "(lost wake-up / blocking while holding a lock)")
             r["status"] = "blocked"
+        elif r["status"] == "stuck" or r.get("stalled"):
+            r["detail"] = (r.get("detail") or "") + " ; all threads blocked for the watchdog period (no thread runnable or in I/O): the run never finishes"
+            r["status"] = "blocked"
+        elif r["status"] == "invariant" and any(v in (r.get("detail") or "") for v in C05_INVARIANTS):
+            pass
+        else:
+            ok_obs, why = pipe.validate_obs(r)
+            if ok_obs:
+                deviations.append({"id": r["id"], "status": r["status"], "detail": r.get("detail")})
+                continue
+            r["detail"] = "%s ; %s" % (r.get("detail"), why)
+            r["status"] = "c05_clause"
         path = pipe.keep_replay(ctx, r)
         ctx.violation(r["id"], {"kind": "TRACE-Pipeline", "run": {k: r.get(k) for k in ("id", "input", "threads", "cap", "perturb", "result", "msg", "stalled")},
                                 "detail": r.get("detail"), "event": r.get("event"), "context": r.get("context"), "cex_tail": r.get("cex_tail"),
                                 "trace": path, "sig": {"status": r["status"], "mode": "single" if r["input"].startswith("single") else "multi"}})
+    ctx.extra["deviations_from_design_not_affecting_termination"] = deviations[:20]
+    ctx.extra["n_deviations_from_design_not_affecting_termination"] = len(deviations)
+    ctx.traces += len(deviations)     # accepted by the C05 observer
     ctx.assumptions += ["a run is declared blocked only when for 30 s no hook event arrives and no thread of the process is runnable or in I/O (thread states from /proc); a merely slow run is never a violation"]
